@@ -9,4 +9,5 @@ let table : (string * (Model.sexp -> Model.sexp)) list = [
   ("pck", Model.run_pck);
   ("heap", Model.run_heap);
   ("ccel", Model.run_ccel);
+  ("tool", Model.run_checktool);
 ]
